@@ -413,11 +413,16 @@ def eval_cases(prop, imports, defs, cases, check_fn, shard=300, timeout=900):
 # ------------------------------------------------------------------ reporting
 
 def load_known_findings():
-    p = os.path.join(VERIF, "known_findings.json")
-    if not os.path.exists(p):
-        return {"known": [], "fixed": []}
-    with open(p) as f:
-        return json.load(f)
+    """merge known_findings/*.json (committed; never written at run time)"""
+    d = os.path.join(VERIF, "known_findings")
+    out = {"known": [], "fixed": []}
+    for f in sorted(os.listdir(d)) if os.path.isdir(d) else []:
+        if f.endswith(".json"):
+            with open(os.path.join(d, f)) as fh:
+                j = json.load(fh)
+            out["known"] += j.get("known", [])
+            out["fixed"] += j.get("fixed", [])
+    return out
 
 
 def write_replay(prop, payload):
